@@ -104,7 +104,10 @@ def run(tier, seed, replay=None):
         d = os.path.join(work, "c%04d" % i)
         os.makedirs(d)
         gen.write_case(prog, d)
-        args0 = ["-q", "p.gdl"]
+        # options that change how the Graphite tables are laid out in the file (compressed tables have another length than
+        # the data they hold; older versions have other headers)
+        opts = crng.choice([[], [], [], ["-c"], ["-c"], ["-v3"], ["-c", "-p"], ["-v2", "-p"]])
+        args0 = ["-q"] + opts + ["p.gdl"]
 
         def comp(src, dst, extra=()):
             a = args0 + [src, dst] + (["New Family"] if rename else []) + list(extra)
@@ -113,6 +116,18 @@ def run(tier, seed, replay=None):
         rc = comp("in.ttf", "g1.ttf")
         if rc != 0 or not os.path.exists(os.path.join(d, "g1.ttf")):
             stats["rejected"] += 1
+            if opts:
+                rcp, logp, _w = common.run_grc(build, d, ["-q", "p.gdl", "in.ttf", "g0.ttf"] + (["New Family"] if rename else []))
+                if rcp == 0:
+                    # the program and the font are fine: the compiler failed while writing the font with these options
+                    ep = os.path.join(d, "gdlerr.txt")
+                    dd = os.path.join(rep.replay_dir, "C08-%s-c%04d" % (seed, i))
+                    shutil.rmtree(dd, ignore_errors=True)
+                    shutil.copytree(d, dd)
+                    rep.violation("c%04d-opts" % i, {"case": "c%04d" % i, "options": opts, "input_font_kind": kind,
+                                                    "failures": ["with %s the compiler exits %s; without, the same program and font compile" % (" ".join(opts), rc)],
+                                                    "rerun": "cd %s && GDLPP=<gdlpp> grcompiler %s in.ttf g1.ttf" % (dd, " ".join(args0))})
+            shutil.rmtree(d, ignore_errors=True)
             continue
         rc2 = comp("g1.ttf", "g2.ttf")
         rc3 = comp("g2.ttf", "g3.ttf")
@@ -120,7 +135,7 @@ def run(tier, seed, replay=None):
         prog2 = gen.gen_match_program(random.Random(crng.getrandbits(64)), nglyphs=40, size="small")
         prog2.font = fontbytes
         open(os.path.join(d, "q.gdl"), "w").write(prog2.gdl())
-        rcq, _, _ = common.run_grc(build, d, ["-q", "q.gdl", "in.ttf", "h.ttf"])
+        rcq, _, _ = common.run_grc(build, d, ["-q"] + opts + ["q.gdl", "in.ttf", "h.ttf"])
         rch = comp("h.ttf", "gh.ttf") if rcq == 0 else None
         lines = ["infont %s/in.ttf" % d, "font %s/g1.ttf" % d, "c08 renamed" if rename else "c08"]
         chain_ok = (rc2 == 0 and rc3 == 0)
@@ -166,7 +181,7 @@ def run(tier, seed, replay=None):
             dd = os.path.join(rep.replay_dir, "C08-%s-c%04d" % (seed, i))
             shutil.rmtree(dd, ignore_errors=True)
             shutil.copytree(d, dd)
-            rep.violation("c%04d" % i, {"case": "c%04d" % i, "input_font_kind": kind, "features": with_feat, "renamed": rename,
+            rep.violation("c%04d" % i, {"case": "c%04d" % i, "input_font_kind": kind, "features": with_feat, "renamed": rename, "options": opts,
                                        "failures": fails,
                                        "rerun": "cd %s && GDLPP=<gdlpp> grcompiler -q p.gdl in.ttf g1.ttf%s; printf 'infont in.ttf\\nfont g1.ttf\\nc08\\n' | %s" % (dd, " 'New Family'" if rename else "", common.grcv_path())})
         if len(samples) < 3:
